@@ -176,6 +176,18 @@ PROPS = {
                                      'block codecs may report any count between the whole blocks written and the frames written'],
         floor={'quick': 500, 'thorough': 2000},
     ),
+    'C12': dict(
+        runs=[dict(src='c12_metadata.c')],
+        level='exploration',
+        rule=('case = (container in WAV, WAVEX, RF64, AIFF, CAF, AU, W64, big-endian WAV; encoding; channels; subset of {strings, bext, cart, cues, instrument, '
+              'channel map} set BEFORE audio in shuffled order with random field contents at boundary lengths (strings 1..600 bytes, full-width bext/cart fields, '
+              'coding history 0..15000, tag text 0..3999, 0..100 cues, 0..16 loops); optionally a second subset set AFTER audio). After close and re-open every '
+              'item of the support matrix is compared field by field after the documented normalisations; audio is compared sample by sample. distinct = hash(parameters, PRNG state)'),
+        assumptions=COMMON_ASSUME + ['support matrix and normalisations are harness constants (c12_metadata.c in_matrix / check_meta) written from docs/api.md, docs/command.md and the writers',
+                                     'software strings longer than 64 bytes are not judged (undocumented truncation); WAV does not store cue names; AIFF stores cue id, position and name only',
+                                     'items outside the matrix or set after audio: only "audio and other items intact" is asserted'],
+        floor={'quick': 500, 'thorough': 2000},
+    ),
 }
 
 NOT_APPLICABLE = {}
